@@ -945,6 +945,46 @@ where
                 }
             }
         }
+        // the point of ONE member of a point label moved (the others keep the opened point): the claim
+        // "q(newpt) = q(oldpt)" filed under the member's own point — never accepted (a refusal is fine)
+        {
+            let id = format!("{}/member-point", id0);
+            let groups = group(&qs);
+            if let Some((gl, gpt, glabels)) = groups.iter().find(|g| g.2.len() >= 2).cloned() {
+                // not the first label of the group in set order: the group's point stays the opened one
+                let member = glabels[1 + range(&mut rng, 0, glabels.len() - 2)].clone();
+                let newpt = S::rand_point(&mut rng, &inst.sizes);
+                let p = inst.polys.iter().find(|p| *p.label() == member).unwrap();
+                let v = ev[&(member.clone(), gpt.clone())];
+                // if another point label queries the same member at the same point value, its true value is filed under
+                // (member, opened point) anyway and the moved claim is simply never looked at (one point label with two
+                // points is outside the documented domain of a query set): not a case for this expectation
+                let shared = qs.iter().any(|(l, (pl, pt))| *l == member && *pl != gl && *pt == gpt);
+                if newpt != gpt && p.evaluate(&newpt) != v && !shared {
+                    let mut qs2 = QuerySet::new();
+                    let mut ev2 = Evaluations::new();
+                    for (l, (pl, pt)) in qs.iter() {
+                        if *pl == gl && *l == member {
+                            qs2.insert((l.clone(), (pl.clone(), newpt.clone())));
+                            ev2.insert((l.clone(), newpt.clone()), v);
+                        } else {
+                            qs2.insert((l.clone(), (pl.clone(), pt.clone())));
+                            ev2.entry((l.clone(), pt.clone())).or_insert(ev[&(l.clone(), pt.clone())]);
+                        }
+                    }
+                    let mut vsp = fresh_sponge();
+                    let out = batch_check::<S>(&inst, &inst.comms, &qs2, &ev2, &proof, &mut vsp, &mut rng);
+                    if out.accepted() {
+                        ctx.rep.expect_fail(&id, &format!("{}/false-claim-accepted/member-point", S::NAME),
+                            "a claim filed under another point than the one its group was opened at was accepted",
+                            fail_replay(&inst, &id, ctx.seed, &format!("point label {}: query point of member {} moved", gl, member)));
+                    }
+                    ctx.rep.count(&format!("{}/plan-member-point", S::NAME));
+                    ctx.rep.case(&format!("{} plan=member-point out={:?}", inst.desc(), out),
+                        Some(format!("{}/{}/member-point", S::NAME, npoly)));
+                }
+            }
+        }
         // commitment to a different polynomial in place of the original
         {
             let id = format!("{}/commitment", id0);
